@@ -923,13 +923,18 @@ class Conv:
         name, a = x.args[0], x.args[1]
         if name == "exp":
             if isinstance(a, Fraction):
-                raise Unsupported("exp of a non-zero constant")
+                # e^c for a non-zero rational c: an opaque positive constant (no algebraic relation is known to the solver)
+                i = self._opaque_var("X", x, [self.const(a)])
+                return Frac(Fraction(1), self.ring.gen(i))
             r = self.one
             for atom, c in lincomb(a).items():
                 if c == 0:
                     continue
                 if atom is None:
-                    raise Unsupported("exp with a constant offset")
+                    cst = S.fn("exp", c)
+                    i = self._opaque_var("X", cst, [self.const(c)])
+                    r = r * Frac(Fraction(1), self.ring.gen(i))
+                    continue
                 if atom.op == "fn" and atom.args[0] == "log":
                     u = atom.args[1]
                     self.assume_pos.setdefault(u, "log argument")
